@@ -74,6 +74,10 @@ type Conn struct {
 	Closes   int
 	ClosedAt time.Duration
 	rdl      time.Time
+	// Responder, if set, is called with every chunk the owner writes; what it
+	// returns becomes readable by the owner at once (a peer that answers
+	// immediately: the reply can overtake the writer's next step).
+	Responder func(written []byte) [][]byte
 }
 
 // Pair returns the two ends of a connection.  stream selects byte-stream
@@ -203,6 +207,11 @@ func (c *Conn) Write(b []byte) (int, error) {
 		}
 	}
 	p.mu.Unlock()
+	if c.Responder != nil {
+		for _, r := range c.Responder(cp) {
+			c.Inject(r)
+		}
+	}
 	return len(b), nil
 }
 
